@@ -348,15 +348,28 @@ func Run(rep *hx.Report, props Props, tier string, sh hx.Shard, deadline time.Ti
 			}
 		}
 	case props.C04:
+		// queues that fill up to process limits that are neither small nor powers of two
+		{
+			ring, fan, sit := []g.Instruction{alpha[1], alpha[5]}, []g.Instruction{alpha[6], alpha[9]}, []g.Instruction{alpha[2]}
+			for pi, P := range []uint64{63, 64, 65, 100, 129, 1000, 1025} {
+				if !sh.Mine(pi) || r.expired() {
+					continue
+				}
+				for _, p := range [][]g.Instruction{ring, fan} {
+					r.run(&Battle{M: M, R: M, W: M, P: P, C: 2*P + 20, ResetAt: -1, Ws: []WSpec{{p, 0, 0}, {sit, 0, 4}}})
+				}
+			}
+			r.sample()
+		}
 		if thorough {
-			rep.Bound = "every one-instruction warrior (7616 forms x 4 field pairs) against 12 hostile programs, M in {8,3}, P in {1,2,5}, every load offset, 30 cycles, invariants after every cycle; eight complete warriors of 1..10 instructions alone, in pairs and in triples on a 64-cell core, process limits 3, 8, 64, 2000 cycles"
+			rep.Bound = "process bombs filling queues of 63, 64, 65, 100, 129, 1000, 1025 tasks for 2P+20 cycles; every one-instruction warrior (7616 forms x 4 field pairs) against 12 hostile programs, M in {8,3}, P in {1,2,5}, every load offset, 30 cycles, invariants after every cycle; eight complete warriors of 1..10 instructions alone, in pairs and in triples on a 64-cell core, process limits 3, 8, 64, 2000 cycles"
 			r.hostileProduct(8, []uint64{1, 2, 5}, [][2]uint64{{1, 7}, {7, 1}, {0, 0}, {2, 3}}, []uint64{1, 2, 3, 4, 5, 6, 7})
 			r.hostileProduct(3, []uint64{1, 2, 5}, [][2]uint64{{1, 2}, {2, 1}, {0, 0}, {2, 2}}, []uint64{1, 2})
 			r.classics([]uint64{64}, []uint64{3, 8, 64}, 2000, true)
 			r.configs(true)
 			rep.Bound += "; boundary product of all 7 configuration fields x 3 modes (241920 configurations): creation errors or a hostile 3-warrior battle of min(cycles,40) cycles under the invariants; every read x write limit in 1..4M+2 for M in {3,4,5,8}; the six presets"
 		} else {
-			rep.Bound = "every one-instruction warrior (7616 forms x 2 field pairs) against 12 hostile programs, M=8, P in {1,3}, offsets {1,4,7}, 30 cycles, invariants after every cycle; eight complete warriors of 1..10 instructions alone and in every ordered pair on a 64-cell core, process limit 8, 600 cycles"
+			rep.Bound = "process bombs filling queues of 63, 64, 65, 100, 129, 1000, 1025 tasks for 2P+20 cycles; every one-instruction warrior (7616 forms x 2 field pairs) against 12 hostile programs, M=8, P in {1,3}, offsets {1,4,7}, 30 cycles, invariants after every cycle; eight complete warriors of 1..10 instructions alone and in every ordered pair on a 64-cell core, process limit 8, 600 cycles"
 			r.hostileProduct(8, []uint64{1, 3}, [][2]uint64{{1, 7}, {0, 3}}, []uint64{1, 4, 7})
 			r.classics([]uint64{64}, []uint64{8}, 600, false)
 			r.configs(false)
